@@ -413,6 +413,23 @@ func c18r3(w *World, rr *RuleRun) {
 				continue
 			}
 			s := k.L.String()
+			// the steps between the element's Addr field and the compared value must not identify
+			// distinct addresses (Unmap, To4, As16 ... merge the 4-byte and the mapped form of a host)
+			lossy := ""
+			for x := k.L; x != nil && x.Op == OpCall && len(x.Args) > 0; x = x.Args[0] {
+				switch suffixName(x) {
+				case "Addr", "Port", "String", "Compare":
+				default:
+					lossy = suffixName(x)
+				}
+				if isFieldTerm(x.Args[0], addrF) {
+					break
+				}
+			}
+			if lossy != "" {
+				rr.At(w, p.Ret, "the address key distinguishes every two different addresses", false, "the key goes through "+lossy+"(), which maps different addresses to one value: "+trunc(s, 120))
+				continue
+			}
 			if strings.Contains(s, ".Addr(") || strings.HasSuffix(suffixName(k.L), "Addr") {
 				hasAddr = true
 			}
